@@ -16,9 +16,9 @@ import (
 type pvKind int
 
 const (
-	pvUnknown pvKind = iota
-	pvTok            // a token type constant
-	pvOperator       // the operator token object (its Type() is tok)
+	pvUnknown  pvKind = iota
+	pvTok             // a token type constant
+	pvOperator        // the operator token object (its Type() is tok)
 	pvBool
 	pvNil
 	pvLeaf // a symbolic operand, named after the entry function's parameter
